@@ -1,7 +1,759 @@
-//! C19 — correspondence harness (stub; see /verif/AGENT_GUIDE.md).
+//! C19 — chain-root MMR and block filters, driven on the real code.
+//!
+//! Stream `mmr` (default): the real `MMR<HeaderDigest, M, &MemStore>` of ckb-merkle-mountain-range
+//! with ckb's real `MergeHeaderDigest` over real header digests.  Two copies run side by side: one
+//! with `M = MergeHeaderDigest` (exactly `ChainRootMMR`), one with a *recording* wrapper that calls
+//! the real `MergeHeaderDigest::{merge, merge_peaks}` and remembers `bytes -> merge term`; the two
+//! must agree byte for byte, and the term of every root / proof item is what is compared with the
+//! Lean model (which computes over the free term algebra).  The store is never cleaned: a reorg only
+//! re-creates the MMR object with the fork point's size (as chain/src/verify.rs does), so stale
+//! nodes of the abandoned branch stay behind exactly like in COLUMN_CHAIN_ROOT_MMR.
+//!
+//! Protocol (model side: lean/CkbVerif/Driver/C19.lean):
+//!   push <id>                       -> ok <pos> <size> | err     one MMR object: push, commit
+//!   pushn <id,id,..>                -> ok <size> | err           one MMR object: pushes, one commit
+//!   reorg <leafcount>               -> ok <size>                 re-create at leaf_index_to_mmr_size(leafcount-1)
+//!   root <slot>                     -> root <term> | err
+//!   rootat <n> <slot>               -> root <term> | err         MMR::new(leaf_index_to_mmr_size(n), store)
+//!   proof <slot> <n> <idx,idx,..>   -> proof <size> <term;..> | err   gen_proof(leaf_index_to_pos(idx)..)
+//!   proofpos <slot> <n> <pos,..>    -> same, raw positions
+//!   verify <rslot> <pslot> <idx:id,..> -> true | false | err     MerkleProof::verify(root, leaves)
+//!   posheight <p> | peaks <size> | idx2size <i> | idx2pos <i>     position helpers
+//! A leaf id encodes the header: number = id % 10000 (must be the leaf index), variant = id / 10000.
+//!
+//! Stream `filter`: the real `build_filter_data` / `calc_filter_hash` of ckb-types:
+//!   fblock <tx> <tx> ..   with tx = c|n / inputCellId,.. / lock:type,..   -> n=<N> elems=<ids> missing=<k>
+//! (cell ids are assigned 1,2,3.. to outputs in order; input id 0 = unknown out-point.)
 use crate::common::*;
+use ckb_hash::blake2b_256;
+use ckb_merkle_mountain_range::helper::{get_peaks, pos_height_in_tree};
+use ckb_merkle_mountain_range::util::MemStore;
+use ckb_merkle_mountain_range::{leaf_index_to_mmr_size, leaf_index_to_pos, Merge, MerkleProof, Result as MMRResult, MMR};
+use ckb_types::core::{EpochNumberWithFraction, HeaderBuilder, TransactionBuilder, TransactionView};
+use ckb_types::packed::{self, CellInput, CellOutput, HeaderDigest, OutPoint, Script};
+use ckb_types::prelude::*;
+use ckb_types::utilities::merkle_mountain_range::MergeHeaderDigest;
+use ckb_types::utilities::{build_filter_data, calc_filter_hash, FilterDataProvider};
+use std::cell::RefCell;
+use std::collections::{BTreeMap, BTreeSet, HashMap};
 
-pub fn run(_opts: &Opts) {
-    eprintln!("C19: harness not implemented in this crate");
-    std::process::exit(2);
+thread_local! {
+    static DICT: RefCell<HashMap<Vec<u8>, String>> = RefCell::new(HashMap::new());
+}
+
+fn term_of(d: &HeaderDigest) -> String {
+    DICT.with(|m| m.borrow().get(d.as_slice()).cloned()).unwrap_or_else(|| format!("?{}", &hex(d.as_slice())[..8]))
+}
+
+fn record(d: &HeaderDigest, t: String) {
+    DICT.with(|m| {
+        m.borrow_mut().insert(d.as_slice().to_vec(), t);
+    });
+}
+
+/// Calls the real merge functions and records which term each produced digest stands for.
+struct RecMerge;
+impl Merge for RecMerge {
+    type Item = HeaderDigest;
+    fn merge(l: &HeaderDigest, r: &HeaderDigest) -> MMRResult<HeaderDigest> {
+        let out = MergeHeaderDigest::merge(l, r)?;
+        record(&out, format!("[{}|{}]", term_of(l), term_of(r)));
+        Ok(out)
+    }
+    fn merge_peaks(a: &HeaderDigest, b: &HeaderDigest) -> MMRResult<HeaderDigest> {
+        let out = MergeHeaderDigest::merge_peaks(a, b)?;
+        // which way round did the real implementation merge?
+        let t = match (MergeHeaderDigest::merge(b, a), MergeHeaderDigest::merge(a, b)) {
+            (Ok(x), _) if x.as_slice() == out.as_slice() => format!("[{}|{}]", term_of(b), term_of(a)),
+            (_, Ok(x)) if x.as_slice() == out.as_slice() => format!("[{}|{}]", term_of(a), term_of(b)),
+            _ => "?peaks".to_string(),
+        };
+        record(&out, t);
+        Ok(out)
+    }
+}
+
+type RecMMR<'a> = MMR<HeaderDigest, RecMerge, &'a MemStore<HeaderDigest>>;
+type RealMMR<'a> = MMR<HeaderDigest, MergeHeaderDigest, &'a MemStore<HeaderDigest>>;
+
+fn size_of_leaves(n: u64) -> u64 {
+    if n == 0 { 0 } else { leaf_index_to_mmr_size(n - 1) }
+}
+
+fn parse_list(s: &str) -> Vec<u64> {
+    if s == "-" { vec![] } else { s.split(',').map(|x| x.parse().expect("number list")).collect() }
+}
+
+fn join<T: ToString>(v: &[T], sep: &str) -> String {
+    if v.is_empty() { "-".into() } else { v.iter().map(|x| x.to_string()).collect::<Vec<_>>().join(sep) }
+}
+
+struct RootInfo {
+    digest: HeaderDigest,
+    chain: Vec<u64>,
+}
+struct ProofInfo {
+    size: u64,
+    items: Vec<HeaderDigest>,
+    chain: Vec<u64>,
+    idxs: Option<BTreeSet<u64>>,
+}
+
+struct Sim {
+    epoch_len: u64,
+    store_rec: MemStore<HeaderDigest>,
+    store_real: MemStore<HeaderDigest>,
+    size: u64,
+    /// the oracle's own record of the main chain (leaf ids, index = block number)
+    chain: Vec<u64>,
+    roots: BTreeMap<u64, RootInfo>,
+    proofs: BTreeMap<u64, ProofInfo>,
+    reorgs: u64,
+    stale_reads_possible: bool,
+}
+
+impl Sim {
+    fn new(epoch_len: u64) -> Sim {
+        Sim { epoch_len, store_rec: MemStore::default(), store_real: MemStore::default(), size: 0, chain: vec![], roots: BTreeMap::new(), proofs: BTreeMap::new(), reorgs: 0, stale_reads_possible: false }
+    }
+
+    fn digest(&self, id: u64) -> HeaderDigest {
+        let n = id % 10000;
+        let variant = id / 10000;
+        let epoch = if n == 0 { EpochNumberWithFraction::new_unchecked(0, 0, 0) } else { EpochNumberWithFraction::new(n / self.epoch_len, n % self.epoch_len, self.epoch_len) };
+        let h = HeaderBuilder::default().number(n).epoch(epoch.full_value()).timestamp(1_000_000 + n * 1000 + variant).nonce(variant as u128).build();
+        let d = h.digest();
+        record(&d, format!("L{id}"));
+        d
+    }
+
+    /// The property's own definition of the chain root: perfect trees by the binary decomposition
+    /// of the leaf count, bagged right to left, with the real merge. Independent of the crate's
+    /// position arithmetic and of the model.
+    fn spec_root(&self, chain: &[u64]) -> Option<HeaderDigest> {
+        let mut mountains: Vec<(u32, HeaderDigest)> = vec![];
+        for id in chain {
+            let mut cur = (0u32, self.digest(*id));
+            while let Some((h, _)) = mountains.last() {
+                if *h != cur.0 {
+                    break;
+                }
+                let (_, left) = mountains.pop().unwrap();
+                cur = (cur.0 + 1, MergeHeaderDigest::merge(&left, &cur.1).ok()?);
+            }
+            mountains.push(cur);
+        }
+        let mut acc = mountains.pop()?.1;
+        while let Some((_, left)) = mountains.pop() {
+            acc = MergeHeaderDigest::merge(&left, &acc).ok()?;
+        }
+        Some(acc)
+    }
+
+    fn check_root(&self, out: &mut Out, what: &str, got: &HeaderDigest, chain: &[u64]) {
+        match self.spec_root(chain) {
+            Some(want) if want.as_slice() == got.as_slice() => {}
+            other => out.oracle_fail("root-not-mmr-root-of-ancestors", &format!("{what} leaves={} got={} want={:?}", chain.len(), hex(got.calc_mmr_hash().as_slice()), other.map(|d| hex(d.calc_mmr_hash().as_slice())))),
+        }
+    }
+
+    fn push_many(&mut self, out: &mut Out, ids: &[u64]) -> Result<(u64, u64), ()> {
+        let ds: Vec<HeaderDigest> = ids.iter().map(|i| self.digest(*i)).collect();
+        let mut rec = RecMMR::new(self.size, &self.store_rec);
+        let mut real = RealMMR::new(self.size, &self.store_real);
+        let mut first_pos = 0;
+        let mut chain = self.chain.clone();
+        for (k, d) in ds.iter().enumerate() {
+            let a = rec.push(d.clone());
+            let b = real.push(d.clone());
+            match (a, b) {
+                (Ok(p), Ok(q)) => {
+                    assert_eq!(p, q, "recording wrapper differs from ChainRootMMR");
+                    if k == 0 {
+                        first_pos = p;
+                    }
+                }
+                (Err(e), Err(_)) => { if std::env::var("VERIF_DEBUG").is_ok() { eprintln!("push error: {e:?}"); } return Err(()) }
+                _ => panic!("recording wrapper differs from ChainRootMMR (push result)"),
+            }
+            chain.push(ids[k]);
+            // what BlockExtensionVerifier reads for the *next* block: the root before commit
+            if let Ok(r) = real.get_root() {
+                self.check_root(out, "root-before-commit", &r, &chain);
+            } else {
+                out.oracle_fail("root-unavailable", "get_root failed on an uncommitted MMR");
+            }
+        }
+        assert_eq!(rec.mmr_size(), real.mmr_size());
+        self.size = real.mmr_size();
+        rec.commit().expect("commit");
+        real.commit().expect("commit");
+        self.chain = chain;
+        Ok((first_pos, self.size))
+    }
+
+    fn leaves_of(&self, pairs: &[(u64, u64)]) -> Vec<(u64, HeaderDigest)> {
+        pairs.iter().map(|(i, id)| (leaf_index_to_pos(*i), self.digest(*id))).collect()
+    }
+
+    fn exec(&mut self, out: &mut Out, line: &str) {
+        let t: Vec<&str> = line.split_whitespace().collect();
+        let ans = match t[0] {
+            "push" => {
+                let id: u64 = t[1].parse().unwrap();
+                out.count("push");
+                match self.push_many(out, &[id]) {
+                    Ok((pos, size)) => format!("ok {pos} {size}"),
+                    Err(()) => "err".into(),
+                }
+            }
+            "pushn" => {
+                let ids = parse_list(t[1]);
+                out.count("pushn");
+                match self.push_many(out, &ids) {
+                    Ok((_, size)) => format!("ok {size}"),
+                    Err(()) => "err".into(),
+                }
+            }
+            "reorg" => {
+                let n: u64 = t[1].parse().unwrap();
+                assert!(n as usize <= self.chain.len(), "reorg beyond tip");
+                if (n as usize) < self.chain.len() {
+                    self.stale_reads_possible = true;
+                    self.reorgs += 1;
+                }
+                self.chain.truncate(n as usize);
+                self.size = size_of_leaves(n);
+                out.count("reorg");
+                format!("ok {}", self.size)
+            }
+            "root" | "rootat" => {
+                let (size, chain, slot): (u64, Vec<u64>, u64) = if t[0] == "root" {
+                    (self.size, self.chain.clone(), t[1].parse().unwrap())
+                } else {
+                    let n: u64 = t[1].parse().unwrap();
+                    let upto = ((n + 1) as usize).min(self.chain.len());
+                    (leaf_index_to_mmr_size(n), self.chain[..upto].to_vec(), t[2].parse().unwrap())
+                };
+                out.count(t[0]);
+                let a = RecMMR::new(size, &self.store_rec).get_root();
+                let b = RealMMR::new(size, &self.store_real).get_root();
+                match (a, b) {
+                    (Ok(a), Ok(b)) => {
+                        assert_eq!(a.as_slice(), b.as_slice(), "recording wrapper differs from ChainRootMMR (root)");
+                        // property: the root over the first n+1 leaves of the main chain, whatever happened before
+                        if t[0] == "root" || (t[1].parse::<u64>().unwrap() as usize) < self.chain.len() {
+                            self.check_root(out, t[0], &b, &chain);
+                        }
+                        let line = format!("root {}", term_of(&a));
+                        self.roots.insert(slot, RootInfo { digest: b, chain });
+                        line
+                    }
+                    (Err(_), Err(_)) => {
+                        if !chain.is_empty() && (t[0] == "root" || (t[1].parse::<u64>().unwrap() as usize) < self.chain.len()) {
+                            out.oracle_fail("root-unavailable", &format!("{line}: get_root failed on a non-empty chain"));
+                        }
+                        "err".into()
+                    }
+                    _ => panic!("recording wrapper differs from ChainRootMMR (root result)"),
+                }
+            }
+            "proof" | "proofpos" => {
+                let slot: u64 = t[1].parse().unwrap();
+                let n: u64 = t[2].parse().unwrap();
+                let raw = parse_list(t[3]);
+                let (pos, idxs): (Vec<u64>, Option<BTreeSet<u64>>) = if t[0] == "proof" {
+                    (raw.iter().map(|i| leaf_index_to_pos(*i)).collect(), Some(raw.iter().copied().collect()))
+                } else {
+                    (raw.clone(), None)
+                };
+                out.count(t[0]);
+                let size = leaf_index_to_mmr_size(n);
+                let a = RecMMR::new(size, &self.store_rec).gen_proof(pos.clone());
+                let b = RealMMR::new(size, &self.store_real).gen_proof(pos.clone());
+                match (a, b) {
+                    (Ok(a), Ok(b)) => {
+                        assert_eq!(a.mmr_size(), b.mmr_size());
+                        assert!(a.proof_items().iter().zip(b.proof_items()).all(|(x, y)| x.as_slice() == y.as_slice()) && a.proof_items().len() == b.proof_items().len(), "recording wrapper differs from ChainRootMMR (proof)");
+                        let items: Vec<String> = a.proof_items().iter().map(term_of).collect();
+                        let upto = ((n + 1) as usize).min(self.chain.len());
+                        let chain = self.chain[..upto].to_vec();
+                        // completeness oracle: a served proof verifies against the root of the chain it was served for
+                        if let (Some(ix), true) = (&idxs, (n as usize) < self.chain.len()) {
+                            if ix.iter().all(|i| *i <= n) {
+                                let leaves: Vec<(u64, HeaderDigest)> = ix.iter().map(|i| (leaf_index_to_pos(*i), self.digest(chain[*i as usize]))).collect();
+                                let root = self.spec_root(&chain).expect("spec root");
+                                match b.verify(root, leaves) {
+                                    Ok(true) => {}
+                                    other => out.oracle_fail("served-proof-does-not-verify", &format!("{line}: {other:?}")),
+                                }
+                            }
+                        }
+                        self.proofs.insert(slot, ProofInfo { size: a.mmr_size(), items: b.proof_items().to_vec(), chain, idxs });
+                        format!("proof {} {}", a.mmr_size(), join(&items, ";"))
+                    }
+                    (Err(_), Err(_)) => {
+                        if let (Some(ix), true) = (&idxs, (n as usize) < self.chain.len()) {
+                            if !ix.is_empty() && ix.iter().all(|i| *i <= n) {
+                                out.oracle_fail("proof-unavailable", &format!("{line}: gen_proof failed for leaves of the chain"));
+                            }
+                        }
+                        "err".into()
+                    }
+                    _ => panic!("recording wrapper differs from ChainRootMMR (proof result)"),
+                }
+            }
+            "verify" => {
+                let rslot: u64 = t[1].parse().unwrap();
+                let pslot: u64 = t[2].parse().unwrap();
+                let pairs: Vec<(u64, u64)> = if t[3] == "-" { vec![] } else { t[3].split(',').map(|p| { let mut it = p.split(':'); (it.next().unwrap().parse().unwrap(), it.next().unwrap().parse().unwrap()) }).collect() };
+                out.count("verify");
+                let (Some(root), Some(proof)) = (self.roots.get(&rslot), self.proofs.get(&pslot)) else { panic!("verify: unknown slot in {line}") };
+                let leaves = self.leaves_of(&pairs);
+                let a = MerkleProof::<HeaderDigest, RecMerge>::new(proof.size, proof.items.clone()).verify(root.digest.clone(), leaves.clone());
+                let b = MerkleProof::<HeaderDigest, MergeHeaderDigest>::new(proof.size, proof.items.clone()).verify(root.digest.clone(), leaves);
+                let res = match (a, b) {
+                    (Ok(x), Ok(y)) => { assert_eq!(x, y); Some(x) }
+                    (Err(_), Err(_)) => None,
+                    _ => panic!("recording wrapper differs from ChainRootMMR (verify result)"),
+                };
+                // soundness: accepted => every claimed leaf is in the root's chain at that index, and the root is of that size
+                let all_in_chain = pairs.iter().all(|(i, id)| root.chain.get(*i as usize) == Some(id));
+                if res == Some(true) && !(all_in_chain && size_of_leaves(root.chain.len() as u64) == proof.size) {
+                    out.oracle_fail("proof-accepted-for-wrong-chain", &format!("{line}: root over {} leaves, proof size {}", root.chain.len(), proof.size));
+                }
+                // completeness: right chain, right leaves, the proved set => accepted
+                let claimed: BTreeSet<u64> = pairs.iter().map(|p| p.0).collect();
+                if root.chain == proof.chain && all_in_chain && proof.idxs.as_ref() == Some(&claimed) && res != Some(true) {
+                    out.oracle_fail("valid-proof-rejected", &format!("{line}: {res:?}"));
+                }
+                match res { Some(true) => "true".into(), Some(false) => "false".into(), None => "err".to_string() }
+            }
+            "posheight" => { out.count("helper"); format!("{}", pos_height_in_tree(t[1].parse().unwrap())) }
+            "peaks" => { out.count("helper"); join(&get_peaks(t[1].parse().unwrap()), ",") }
+            "idx2size" => { out.count("helper"); format!("{}", leaf_index_to_mmr_size(t[1].parse().unwrap())) }
+            "idx2pos" => { out.count("helper"); format!("{}", leaf_index_to_pos(t[1].parse().unwrap())) }
+            _ => panic!("bad op {line}"),
+        };
+        out.op(line, &ans);
+    }
+}
+
+fn fresh_ids(rng: &mut Rng, from: u64, k: u64, variant: u64) -> Vec<u64> {
+    let _ = rng;
+    (from..from + k).map(|n| variant * 10000 + n).collect()
+}
+
+fn pick_indices(rng: &mut Rng, n: u64) -> Vec<u64> {
+    // n = last leaf index; a few leaves, biased to the edges and to the last peaks
+    let k = match rng.below(6) { 0 => 1, 1 | 2 => 2, 3 => 3, 4 => rng.range(1, 6), _ => rng.range(1, (n + 1).min(12)) };
+    let mut v = vec![];
+    for _ in 0..k {
+        v.push(match rng.below(5) { 0 => 0, 1 => n, 2 => n - n.min(rng.below(3)), _ => rng.below(n + 1) });
+    }
+    if rng.chance(3, 4) {
+        v.sort();
+        v.dedup();
+    }
+    v
+}
+
+fn gen_mmr_case(out: &mut Out, rng: &mut Rng, n_ops: usize, big: bool) {
+    let epoch_len = *rng.pick(&[1u64, 3, 4, 7, 1000]);
+    out.begin_case(&format!("mmr epoch_len={epoch_len}"));
+    let mut sim = Sim::new(epoch_len);
+    let mut variant = 0u64;
+    let mut slot = 0u64;
+    let mut ops: Vec<String> = vec![];
+    let mut emit = |sim: &mut Sim, out: &mut Out, s: String| {
+        sim.exec(out, &s);
+        ops.push(s);
+    };
+    // genesis, as store/src/db.rs init does: MMR::new(0), push, commit
+    emit(&mut sim, out, "push 0".to_string());
+    let start = if big { rng.range(1, 70) } else { rng.range(0, 9) };
+    if start > 0 {
+        let ids = fresh_ids(rng, 1, start, 0);
+        emit(&mut sim, out, format!("pushn {}", join(&ids, ",")));
+    }
+    for _ in 0..n_ops {
+        let len = sim.chain.len() as u64;
+        match rng.below(20) {
+            0..=5 => {
+                let id = variant * 10000 + len;
+                emit(&mut sim, out, format!("push {id}"));
+            }
+            6 => {
+                let k = rng.range(2, 6);
+                let ids = fresh_ids(rng, len, k, variant);
+                emit(&mut sim, out, format!("pushn {}", join(&ids, ",")));
+            }
+            7..=9 if len >= 2 => {
+                // reorg: fork point biased to just below the tip, to powers of two and to deep forks
+                let keep = match rng.below(6) {
+                    0 => len - 1,
+                    1 => len - len.min(2).min(len - 1),
+                    2 => { let mut p = 1; while p * 2 < len { p *= 2; } p }
+                    3 => { let mut p = 1; while p * 2 < len { p *= 2; } (p + 1).min(len - 1) }
+                    4 => 1,
+                    _ => rng.range(1, len - 1),
+                }.max(1);
+                // keep a root and a proof of the branch about to be abandoned
+                slot += 1;
+                let old_root = slot;
+                emit(&mut sim, out, format!("root {old_root}"));
+                let idxs = pick_indices(rng, len - 1);
+                slot += 1;
+                let old_proof = slot;
+                emit(&mut sim, out, format!("proof {old_proof} {} {}", len - 1, join(&idxs, ",")));
+                let old_chain = sim.chain.clone();
+                emit(&mut sim, out, format!("reorg {keep}"));
+                variant += 1;
+                // new branch: shorter, equal or longer than the abandoned one
+                let removed = len - keep;
+                let k = match rng.below(4) { 0 => 1, 1 => removed, 2 => removed + 1, _ => rng.range(1, removed + 3) };
+                let ids = fresh_ids(rng, keep, k, variant);
+                if rng.chance(1, 2) {
+                    emit(&mut sim, out, format!("pushn {}", join(&ids, ",")));
+                } else {
+                    for id in ids {
+                        emit(&mut sim, out, format!("push {id}"));
+                    }
+                }
+                slot += 1;
+                emit(&mut sim, out, format!("root {slot}"));
+                // the old branch's proof against the new root, and the new proof against the old root
+                let mut pairs: Vec<String> = idxs.iter().collect::<BTreeSet<_>>().iter().map(|i| format!("{}:{}", i, old_chain[**i as usize])).collect();
+                emit(&mut sim, out, format!("verify {slot} {old_proof} {}", pairs.join(",")));
+                emit(&mut sim, out, format!("verify {old_root} {old_proof} {}", pairs.join(",")));
+                let new_len = sim.chain.len() as u64;
+                let idxs2 = pick_indices(rng, new_len - 1);
+                slot += 1;
+                emit(&mut sim, out, format!("proof {slot} {} {}", new_len - 1, join(&idxs2, ",")));
+                pairs = idxs2.iter().collect::<BTreeSet<_>>().iter().map(|i| format!("{}:{}", i, sim.chain[**i as usize])).collect();
+                emit(&mut sim, out, format!("verify {} {slot} {}", slot - 1, pairs.join(",")));
+                emit(&mut sim, out, format!("verify {old_root} {slot} {}", pairs.join(",")));
+            }
+            10 | 11 => {
+                slot += 1;
+                emit(&mut sim, out, format!("root {slot}"));
+            }
+            12 | 13 => {
+                // roots of earlier blocks of the main chain (what Snapshot::chain_root_mmr(n) serves)
+                let n = rng.below(len);
+                slot += 1;
+                emit(&mut sim, out, format!("rootat {n} {slot}"));
+            }
+            14..=17 => {
+                // a proof for some leaves against the MMR of an earlier or the current tip, then verify variants
+                let n = if rng.chance(1, 2) { len - 1 } else { rng.below(len) };
+                let idxs = pick_indices(rng, n);
+                slot += 1;
+                let rs = slot;
+                emit(&mut sim, out, format!("rootat {n} {rs}"));
+                slot += 1;
+                let ps = slot;
+                emit(&mut sim, out, format!("proof {ps} {n} {}", join(&idxs, ",")));
+                let set: Vec<u64> = idxs.iter().copied().collect::<BTreeSet<_>>().into_iter().collect();
+                let good: Vec<String> = set.iter().map(|i| format!("{}:{}", i, sim.chain[*i as usize])).collect();
+                emit(&mut sim, out, format!("verify {rs} {ps} {}", good.join(",")));
+                // one leaf replaced by a header of another fork at the same height
+                let mut bad = good.clone();
+                let j = rng.below(bad.len() as u64) as usize;
+                bad[j] = format!("{}:{}", set[j], sim.chain[set[j] as usize] + 10000 * (1 + rng.below(3)));
+                emit(&mut sim, out, format!("verify {rs} {ps} {}", bad.join(",")));
+                match rng.below(4) {
+                    0 if set.len() > 1 => {
+                        // a leaf dropped
+                        let mut fewer = good.clone();
+                        fewer.remove(rng.below(fewer.len() as u64) as usize);
+                        emit(&mut sim, out, format!("verify {rs} {ps} {}", fewer.join(",")));
+                    }
+                    1 => {
+                        // an extra leaf of the chain the proof does not cover
+                        let extra = rng.below(n + 1);
+                        if !set.contains(&extra) {
+                            let mut more = good.clone();
+                            more.push(format!("{}:{}", extra, sim.chain[extra as usize]));
+                            emit(&mut sim, out, format!("verify {rs} {ps} {}", more.join(",")));
+                        }
+                    }
+                    2 if n > 0 => {
+                        // the same leaves against the root of a different tip
+                        let m = rng.below(n);
+                        slot += 1;
+                        emit(&mut sim, out, format!("rootat {m} {slot}"));
+                        emit(&mut sim, out, format!("verify {slot} {ps} {}", good.join(",")));
+                    }
+                    _ => {}
+                }
+            }
+            18 => {
+                // malformed proof requests: inner-node positions, positions beyond the size, empty list, beyond-tip n
+                let n = rng.below(len + 2);
+                let size = leaf_index_to_mmr_size(n);
+                let ps: Vec<u64> = match rng.below(4) {
+                    0 => vec![],
+                    1 => vec![rng.below(size + 3)],
+                    2 => vec![size + rng.below(4)],
+                    _ => (0..rng.range(1, 4)).map(|_| rng.below(size + 2)).collect(),
+                };
+                slot += 1;
+                emit(&mut sim, out, format!("proofpos {slot} {n} {}", join(&ps, ",")));
+            }
+            _ => {
+                let bits = rng.range(1, 50);
+                let big = rng.below(1u64 << bits);
+                let v = match rng.below(4) {
+                    0 => format!("posheight {big}"),
+                    1 => format!("peaks {}", if rng.chance(1, 2) { leaf_index_to_mmr_size(big >> 10) } else { rng.range(1, 3000) }),
+                    2 => format!("idx2size {big}"),
+                    _ => format!("idx2pos {big}"),
+                };
+                emit(&mut sim, out, v);
+            }
+        }
+    }
+    slot += 1;
+    emit(&mut sim, out, format!("root {slot}"));
+    if sim.reorgs > 0 {
+        out.nontrivial(format!("{epoch_len}:{:?}", sim.chain));
+    }
+}
+
+// ------------------------------------------------------------------------------------------ filters
+
+struct CellTable {
+    cells: Vec<(OutPoint, CellOutput, u64, Option<u64>)>, // index = id - 1
+    by_pt: HashMap<Vec<u8>, usize>,
+}
+struct Provider<'a>(&'a CellTable);
+impl<'a> FilterDataProvider for Provider<'a> {
+    fn cell(&self, out_point: &OutPoint) -> Option<CellOutput> {
+        self.0.by_pt.get(out_point.as_slice()).map(|i| self.0.cells[*i].1.clone())
+    }
+}
+
+fn script(id: u64) -> Script {
+    Script::new_builder().args(ckb_types::bytes::Bytes::from(id.to_le_bytes().to_vec())).build()
+}
+
+struct FSim {
+    table: CellTable,
+    counter: u64,
+    parent_hash: packed::Byte32,
+    blocks: u64,
+}
+
+impl FSim {
+    fn new() -> FSim {
+        FSim { table: CellTable { cells: vec![], by_pt: HashMap::new() }, counter: 0, parent_hash: packed::Byte32::zero(), blocks: 0 }
+    }
+
+    fn exec(&mut self, out: &mut Out, line: &str) {
+        let t: Vec<&str> = line.split_whitespace().collect();
+        assert_eq!(t[0], "fblock", "bad op {line}");
+        let mut txs: Vec<TransactionView> = vec![];
+        // the harness's own account of which scripts the block touches (oracle side)
+        let mut expect: BTreeSet<u64> = BTreeSet::new();
+        let mut universe: BTreeSet<u64> = BTreeSet::new();
+        for c in &self.table.cells {
+            universe.insert(c.2);
+            if let Some(ty) = c.3 {
+                universe.insert(ty);
+            }
+        }
+        for spec in &t[1..] {
+            let parts: Vec<&str> = spec.split('/').collect();
+            assert_eq!(parts.len(), 3, "bad tx {spec}");
+            let cellbase = parts[0] == "c";
+            let ins = parse_list(parts[1]);
+            assert!(!(cellbase && !ins.is_empty()), "cellbase with inputs");
+            let mut b = TransactionBuilder::default();
+            if cellbase {
+                b = b.input(CellInput::new_cellbase_input(self.blocks)).witness(packed::Bytes::default());
+            }
+            for i in &ins {
+                let pt = if *i >= 1 && (*i as usize) <= self.table.cells.len() {
+                    let c = &self.table.cells[*i as usize - 1];
+                    expect.insert(c.2);
+                    if let Some(ty) = c.3 {
+                        expect.insert(ty);
+                    }
+                    c.0.clone()
+                } else {
+                    self.counter += 1;
+                    OutPoint::new(blake2b_256(self.counter.to_le_bytes()).into(), 7)
+                };
+                b = b.input(CellInput::new(pt, 0));
+            }
+            let mut outs: Vec<(u64, Option<u64>)> = vec![];
+            if parts[2] != "-" {
+                for o in parts[2].split(',') {
+                    let mut it = o.split(':');
+                    let lock: u64 = it.next().unwrap().parse().unwrap();
+                    let ty = it.next().unwrap();
+                    let ty: Option<u64> = if ty == "-" { None } else { Some(ty.parse().unwrap()) };
+                    outs.push((lock, ty));
+                }
+            }
+            self.counter += 1;
+            for (k, (lock, ty)) in outs.iter().enumerate() {
+                let co = CellOutput::new_builder().lock(script(*lock)).type_(ty.map(script)).build();
+                b = b.output(co);
+                // unique data keeps transaction hashes (hence out-points) distinct
+                b = b.output_data(ckb_types::bytes::Bytes::from(if k == 0 { self.counter.to_le_bytes().to_vec() } else { vec![] }));
+                expect.insert(*lock);
+                universe.insert(*lock);
+                if let Some(ty) = ty {
+                    expect.insert(*ty);
+                    universe.insert(*ty);
+                }
+            }
+            let tx = b.build();
+            assert_eq!(tx.is_cellbase(), cellbase);
+            for (k, (lock, ty)) in outs.iter().enumerate() {
+                let pt = OutPoint::new(tx.hash(), k as u32);
+                self.table.by_pt.insert(pt.as_slice().to_vec(), self.table.cells.len());
+                self.table.cells.push((pt, tx.outputs().get(k).unwrap(), *lock, *ty));
+            }
+            txs.push(tx);
+        }
+        let (data, missing) = build_filter_data(Provider(&self.table), &txs);
+        out.count("fblock");
+        // decode the Golomb-coded set produced by the real code
+        let n = u64::from_le_bytes(data[0..8].try_into().unwrap());
+        let mut values: BTreeSet<u64> = BTreeSet::new();
+        {
+            let mut cur = std::io::Cursor::new(&data[8..]);
+            let mut r = golomb_coded_set::BitStreamReader::new(&mut cur);
+            let mut acc = 0u64;
+            for _ in 0..n {
+                let mut q = 0u64;
+                while r.read(1).expect("gcs bits") == 1 {
+                    q += 1;
+                }
+                let rem = r.read(golomb_coded_set::P).expect("gcs bits");
+                acc += (q << golomb_coded_set::P) + rem;
+                values.insert(acc);
+            }
+        }
+        let nm = n.wrapping_mul(golomb_coded_set::M);
+        let value_of = |id: u64| -> u64 {
+            use std::hash::{BuildHasher, Hasher};
+            let mut h = golomb_coded_set::SipHasher24Builder::new(0, 0).build_hasher();
+            h.write(script(id).calc_script_hash().as_slice());
+            ((h.finish() as u128 * nm as u128) >> 64) as u64
+        };
+        let decoded: Vec<u64> = universe.iter().copied().filter(|id| values.contains(&value_of(*id))).collect();
+        let known: BTreeSet<u64> = decoded.iter().map(|id| value_of(*id)).collect();
+        let unknown = values.iter().filter(|v| !known.contains(v)).count();
+        // oracle: every lock/type script of the outputs and of the spent inputs matches, via the real matcher
+        let reader = golomb_coded_set::GCSFilterReader::new(golomb_coded_set::SipHasher24Builder::new(0, 0), golomb_coded_set::M, golomb_coded_set::P);
+        for id in &expect {
+            let h = script(*id).calc_script_hash();
+            let mut q = vec![h.as_slice()].into_iter();
+            let hit = reader.match_any(&mut std::io::Cursor::new(&data[..]), &mut q).unwrap_or(false);
+            if !hit {
+                out.oracle_fail("filter-misses-script", &format!("{line}: script {id} of this block is not matched by its filter"));
+            }
+        }
+        if !expect.is_empty() {
+            let hs: Vec<packed::Byte32> = expect.iter().map(|id| script(*id).calc_script_hash()).collect();
+            let mut q = hs.iter().map(|h| h.as_slice());
+            if !reader.match_all(&mut std::io::Cursor::new(&data[..]), &mut q).unwrap_or(false) {
+                out.oracle_fail("filter-misses-script", &format!("{line}: match_all over the block's scripts fails"));
+            }
+        }
+        // oracle: the filter hash chains from the parent's: H(parent || H(data))
+        let packed_data: packed::Bytes = data.clone().into();
+        let fh = calc_filter_hash(&self.parent_hash, &packed_data);
+        let mut buf = self.parent_hash.as_slice().to_vec();
+        buf.extend_from_slice(&blake2b_256(&data));
+        if fh != blake2b_256(&buf) {
+            out.oracle_fail("filter-hash-not-chained", line);
+        }
+        self.parent_hash = fh.into();
+        self.blocks += 1;
+        let ans = format!("n={} elems={} missing={}{}", n, join(&decoded, ","), missing.len(), if unknown > 0 { format!(" unknown={unknown}") } else { String::new() });
+        out.op(line, &ans);
+        if expect.len() >= 3 && t.len() > 2 {
+            out.nontrivial(line.to_string());
+        }
+    }
+}
+
+fn gen_filter_case(out: &mut Out, rng: &mut Rng, n_blocks: usize) {
+    out.begin_case("filter");
+    let mut sim = FSim::new();
+    let n_scripts = rng.range(2, 9);
+    for _ in 0..n_blocks {
+        let mut specs: Vec<String> = vec![];
+        let n_tx = rng.range(0, 4);
+        let mut have = sim.table.cells.len() as u64;
+        let base = have;
+        if rng.chance(4, 5) {
+            let k = rng.range(0, 2);
+            let outs: Vec<String> = (0..k).map(|_| format!("{}:{}", rng.range(1, n_scripts), if rng.chance(1, 3) { rng.range(1, n_scripts).to_string() } else { "-".into() })).collect();
+            specs.push(format!("c/-/{}", join(&outs, ",")));
+            have += k;
+        }
+        for _ in 0..n_tx {
+            let n_in = rng.range(0, 3);
+            let ins: Vec<u64> = (0..n_in)
+                .map(|_| match rng.below(8) {
+                    0 => 0,                                                // unknown out-point
+                    1 | 2 if have > base => rng.range(base + 1, have),     // created earlier in this block
+                    _ if have > 0 => rng.range(1, have),
+                    _ => 0,
+                })
+                .collect();
+            let k = rng.range(0, 3);
+            let outs: Vec<String> = (0..k).map(|_| format!("{}:{}", rng.range(1, n_scripts), if rng.chance(1, 2) { rng.range(1, n_scripts).to_string() } else { "-".into() })).collect();
+            specs.push(format!("n/{}/{}", join(&ins, ","), join(&outs, ",")));
+            have += k;
+        }
+        let line = if specs.is_empty() { "fblock".to_string() } else { format!("fblock {}", specs.join(" ")) };
+        sim.exec(out, &line);
+    }
+}
+
+pub fn run(opts: &Opts) {
+    let mut out = Out::new(&opts.out);
+    let mut rng = Rng::new(opts.seed);
+    let filter = opts.extra.first().map(|s| s == "filter").unwrap_or(false);
+    if let Some(p) = &opts.replay {
+        let ops = read_replay_ops(p);
+        let mut sim: Option<Sim> = None;
+        let mut fsim: Option<FSim> = None;
+        for line in &ops {
+            let t: Vec<&str> = line.split_whitespace().collect();
+            if t[0] == "case" {
+                let label = t[2..].join(" ");
+                out.begin_case(&label);
+                let epoch_len = label.split("epoch_len=").nth(1).and_then(|s| s.split_whitespace().next()).and_then(|s| s.parse().ok()).unwrap_or(1000);
+                sim = Some(Sim::new(epoch_len));
+                fsim = Some(FSim::new());
+            } else if filter {
+                fsim.as_mut().expect("case line first").exec(&mut out, line);
+            } else {
+                sim.as_mut().expect("case line first").exec(&mut out, line);
+            }
+        }
+    } else if filter {
+        let (cases, blocks) = if opts.thorough() { (600 * opts.scale, 30) } else { (60 * opts.scale, 20) };
+        for _ in 0..cases {
+            gen_filter_case(&mut out, &mut rng, blocks);
+        }
+    } else {
+        let (cases, n_ops) = if opts.thorough() { (1500 * opts.scale, 40) } else { (150 * opts.scale, 25) };
+        for c in 0..cases {
+            gen_mmr_case(&mut out, &mut rng, n_ops, c % 3 == 2);
+        }
+    }
+    if filter {
+        out.finish("random blocks (0-4 transactions plus usually a cellbase, 2-9 distinct scripts shared between lock and type positions, inputs spending cells of earlier blocks, of the same block, or unknown out-points) through the real build_filter_data/calc_filter_hash; the produced Golomb-coded set is decoded and compared with the model's element set; oracle: every script of the block's outputs and spent inputs matches through the real GCSFilterReader and the filter hash equals H(parent || H(data)); non-trivial iff the block has >= 2 transactions and >= 3 distinct scripts");
+    } else {
+        out.finish("random push / multi-push / reorg (re-create at the fork size over the uncleaned store, then push another branch: shorter, equal, longer; fork points biased to tip-1, powers of two, genesis+1) / root / root-at-n / gen_proof / verify sequences on the real MMR<HeaderDigest, MergeHeaderDigest, MemStore> with real header digests (epoch lengths 1,3,4,7,1000), plus position-helper queries up to 2^50; non-trivial iff the case contains at least one reorg that abandons leaves; distinct by final leaf list");
+    }
 }
